@@ -692,6 +692,22 @@ pub mod split_trace {
             witnessed_start: Option<usize>,
             paths: Option<usize>,
         },
+        /// `Updater::update_and_prove`: the operation list `Session::finish` handed over
+        /// (kind 0 = `Read`, 1 = `Write`, 2 = `ReadThenWrite`; the written value hash) and the
+        /// witness flag.
+        Update {
+            read_write: Vec<([u8; 32], u8, Option<[u8; 32]>)>,
+            witness: bool,
+        },
+        /// `RangeUpdater::handle_completion`, right before `attempt_advance` of an owned batch in
+        /// an exclusive page: `rebuilt` = the sub-trie below the terminal is replaced
+        /// (`advance_and_replace` with `ops` operations) rather than only advanced past.
+        Advance {
+            shard: usize,
+            start: usize,
+            rebuilt: bool,
+            ops: usize,
+        },
     }
 
     static TRACE: Mutex<Option<Vec<Event>>> = Mutex::new(None);
@@ -720,6 +736,10 @@ pub mod split_trace {
         position.path().iter().by_vals().collect()
     }
 }
+
+// H25 — `Session::finish` seen from the outside: the events `Update` (the compact operation list handed to
+// `Updater::update_and_prove`) and `Advance` (rebuilt vs only advanced, per owned exclusive batch) of
+// `split_trace` above, and `FinishedSession::verif_value_changes` (the value transaction's batch).
 
 // H11 — Rollback deltas (`rollback/reverse_delta_worker.rs`, `ReverseDeltaBuilder`) and the bookkeeping of
 // `Rollback` (`InMemory`, `commit`, `commit_nonblocking`, `truncate`, the sync controller).
